@@ -37,9 +37,48 @@ def mk(lo, hi, t=False, p2=False, s=None, ib=False):
 
 
 def tag_depth(s):
-    if not isinstance(s, tuple) or not s or s[0] not in ("Add", "Sub", "Mul"):
+    if not isinstance(s, tuple) or not s or s[0] not in ("Add", "Sub", "Mul", "BitAnd", "BitOr", "BitXor", "Shl", "Shr", "Div", "Rem"):
         return 0
     return 1 + max(tag_depth(s[1]), tag_depth(s[2]))
+
+
+def _rel_fact(facts, op, sa, sb):
+    """record the order relation between two tagged values established by a branch (tags name immutable values)"""
+    if sa is None or sb is None:
+        return
+    facts[("cmp", sa, sb)] = (1, 1, False)
+    facts[("cmp", sb, sa)] = (1, 1, False)
+    if op == "Lt":
+        facts[("lt", sa, sb)] = (1, 1, False)
+    elif op == "Gt":
+        facts[("lt", sb, sa)] = (1, 1, False)
+    elif op == "Le":
+        facts[("le", sa, sb)] = (1, 1, False)
+    elif op == "Ge":
+        facts[("le", sb, sa)] = (1, 1, False)
+    elif op == "Eq":
+        facts[("le", sa, sb)] = (1, 1, False)
+        facts[("le", sb, sa)] = (1, 1, False)
+
+
+def rel_lt(facts, a, b):
+    """is a < b established for int values a, b (by tags)?"""
+    if not facts or a is None or b is None or a.get("k") != "int" or b.get("k") != "int":
+        return False
+    sa, sb = a.get("s"), b.get("s")
+    if sa is None or sb is None:
+        return False
+    if ("lt", sa, sb) in facts:
+        return True
+    # a <= c < b or a < c <= b through one intermediate value
+    for k in facts:
+        if isinstance(k, tuple) and len(k) == 3 and k[0] in ("lt", "le") and k[1] == sa:
+            mid = k[2]
+            if k[0] == "lt" and (("le", mid, sb) in facts or ("lt", mid, sb) in facts):
+                return True
+            if k[0] == "le" and ("lt", mid, sb) in facts:
+                return True
+    return False
 
 
 def const(v, t=False):
@@ -114,7 +153,7 @@ def freeze(v):
     if k == "top":
         return ("T", v["t"])
     if k == "seq":
-        return ("s", freeze(v["len"]), v["t"], freeze(v.get("e")))
+        return ("s", freeze(v["len"]), v["t"], freeze(v.get("e")), v.get("id"))
     if k == "agg":
         return ("a", tuple(sorted((kk, freeze(x)) for kk, x in v["f"].items())), v["t"])
     if k == "enum":
@@ -171,6 +210,9 @@ class Analyzer:
         self.opaque = opaque or (lambda fn: False)
         self.path_limit = path_limit
         self.stats = defaultdict(int)
+        self.undecided = {}
+        self.site_log = {}
+        self.analysed_fns = set()
         self.type_inv = {}
         self._facts = None
         self._fresh = 0
@@ -356,6 +398,10 @@ class Analyzer:
             lo, hi = a["lo"] + b["lo"], a["hi"] + b["hi"]
         elif op in ("Sub", "SubWithOverflow", "SubUnchecked"):
             lo, hi = a["lo"] - b["hi"], a["hi"] - b["lo"]
+            sb = b.get("s")
+            if a.get("s") is not None and isinstance(sb, tuple) and a["lo"] >= 0 and (
+                    (sb[0] == "BitAnd" and a["s"] in sb[1:]) or (sb[0] in ("Rem", "Shr", "Div") and sb[1] == a["s"])):
+                lo = max(lo, 0)  # x - (x & m), x - (x % m), x - (x >> k), x - x / k never underflow
         elif op in ("Mul", "MulWithOverflow", "MulUnchecked"):
             c = [a["lo"] * b["lo"], a["lo"] * b["hi"], a["hi"] * b["lo"], a["hi"] * b["hi"]]
             lo, hi = min(c), max(c)
@@ -406,9 +452,9 @@ class Analyzer:
         tag = None
         base = {"AddWithOverflow": "Add", "AddUnchecked": "Add", "SubWithOverflow": "Sub", "SubUnchecked": "Sub",
                 "MulWithOverflow": "Mul", "MulUnchecked": "Mul"}.get(op, op)
-        if base in ("Add", "Sub", "Mul") and a.get("s") is not None and b.get("s") is not None:
+        if base in ("Add", "Sub", "Mul", "BitAnd", "BitOr", "BitXor", "Shl", "Shr", "Div", "Rem") and a.get("s") is not None and b.get("s") is not None:
             sa, sb = a["s"], b["s"]
-            if base != "Sub" and repr(sb) < repr(sa):
+            if base in ("Add", "Mul", "BitAnd", "BitOr", "BitXor") and repr(sb) < repr(sa):
                 sa, sb = sb, sa
             tag = (base, sa, sb)
             if tag_depth(tag) > 2:
@@ -541,6 +587,7 @@ class Analyzer:
         if na["lo"] != na["hi"] or not (na["lo"] > 0 and na["lo"] & (na["lo"] - 1) == 0):
             na["p2"] = a["p2"]
         facts = dict(st.get("#facts") or {})
+        _rel_fact(facts, op, a.get("s"), b.get("s"))
         for v in (na, nb):
             if v.get("s") is not None and v["s"][0] != "c":
                 old = facts.get(v["s"])
@@ -602,6 +649,34 @@ class Analyzer:
 # interpreter
 # =================================================================================================
 
+def name_value(v, base):
+    """give identity to the parts of an argument value: sequence ids (and tags for their lengths), tags for integers"""
+    if v is None:
+        return v
+    k = v["k"]
+    if k == "int":
+        if v.get("s") is None and v["lo"] != v["hi"]:
+            v = dict(v)
+            v["s"] = ("arg",) + base
+        return v
+    if k == "seq":
+        v = dict(v)
+        if v.get("id") is None:
+            v["id"] = ("seq",) + base
+        ln = dict(v["len"])
+        if ln.get("s") is None and ln["lo"] != ln["hi"]:
+            ln["s"] = ("len", v["id"])
+        v["len"] = ln
+        if v.get("e") is not None:
+            v["e"] = name_value(v["e"], base + ("e",))
+        return v
+    if k == "agg":
+        return {"k": "agg", "f": {kk: name_value(x, base + (kk,)) for kk, x in v["f"].items()}, "t": v["t"]}
+    if k == "enum":
+        return {"k": "enum", "v": {kk: (name_value(x, base + ("v", kk)) if x else x) for kk, x in v["v"].items()}, "t": v["t"]}
+    return v
+
+
 def enum_val(variants, t=False):
     return {"k": "enum", "v": variants, "t": t}
 
@@ -630,6 +705,9 @@ def npot(n):
 
 class _Frame:
     pass
+
+
+ITER_TY = re.compile(r"^(core::slice::iter::|core::iter::adapters::|alloc::vec::into_iter::|core::ops::range::Range)")
 
 
 def _loops(fn):
@@ -675,7 +753,7 @@ def _loops(fn):
                     ls.add(s["lhs"]["l"])
                     rv = s.get("rv") or {}
                     if rv.get("k") in ("ref", "rawptr") and rv.get("mut"):
-                        ls.add(rv["p"]["l"])
+                        ls.add(("mut", rv["p"]["l"]))
             t = fn.term(b)
             if t["k"] == "call":
                 ls.add(t["dest"]["l"])
@@ -684,7 +762,56 @@ def _loops(fn):
                     if l is not None:
                         ls.add(("ref", l))
         assigned[hdr] = ls
-    return {h for (_, h) in back}, assigned, back
+    return {h for (_, h) in back}, assigned, back, info
+
+
+FULL_ITER = {"cloned", "copied", "enumerate", "rev"}
+
+
+def _exhaustion_edges(fn, headers, bodies):
+    """edges (switch block -> block outside the loop) taken when `Iterator::next` of a loop over a whole slice/vector returns None"""
+    exh, nxt = {}, {}
+    for h in headers:
+        body = bodies[h]
+        for nb in body:
+            t = fn.term(nb)
+            if t["k"] != "call" or not (callee_name(t) or "").endswith("Iterator::next") or t.get("target") is None:
+                continue
+            ity = ((t.get("fn") or {}).get("targs") or [""])[0]
+            adapters = set(re.findall(r"core::iter::adapters::(\w+)::", ity))
+            if not adapters <= FULL_ITER or not re.search(r"core::slice::iter::Iter<|alloc::vec::into_iter::IntoIter<", ity):
+                continue
+            tb = t["target"]
+            tt = fn.term(tb)
+            if tt["k"] != "switch" or tb not in body:
+                continue
+            none = [x for v, x in tt["targets"] if v == "0"]
+            if len(none) == 1 and none[0] not in body and sum(1 for x in body if (callee_name(fn.term(x)) or "").endswith("Iterator::next")) == 1:
+                exh[(tb, none[0])] = h
+                nxt[h] = t
+    return exh, nxt
+
+
+def _int_tags(v, out):
+    if v is None:
+        return
+    if v["k"] == "int" and v.get("s") is not None:
+        out.add(v["s"])
+    elif v["k"] == "agg":
+        for x in v["f"].values():
+            _int_tags(x, out)
+
+
+def _iter_elem_tags(self, fn, st, next_term):
+    tgt = _ref_target(st, self.read_op(fn, st, next_term["args"][0])) if next_term.get("args") else None
+    v = st.get(tgt) if tgt is not None else None
+    out = set()
+    if v and v["k"] == "seq":
+        _int_tags(v.get("e"), out)
+    return out
+
+
+Analyzer._iter_elem_tags = _iter_elem_tags
 
 
 def _analyze(self, fn, args, chain=(), subst=None, facts=None):
@@ -711,14 +838,18 @@ def _analyze(self, fn, args, chain=(), subst=None, facts=None):
         return summ
     self.memo[key] = summ  # provisional (recursion guard)
     self.stats["functions"] += 1
+    self.analysed_fns.add(fn.nname)
     self._fresh += 1
     saved_inst, saved_flag = self._inst, self._made_tag
     self._inst, self._made_tag = self._fresh, False
     my_inst = self._inst
-    headers, assigned, back = _loops(fn)
+    headers, assigned, back, bodies = _loops(fn)
+    exh, exh_next = _exhaustion_edges(fn, headers, bodies)
+    deferred = []
+    backfacts = defaultdict(list)
     st0 = {"#facts": dict(facts)}
     for i, a in enumerate(args):
-        st0[i + 1] = a
+        st0[i + 1] = name_value(a, (fn.id, i + 1)) if not chain else a
     work = [(0, st0, False, frozenset())]
     seen = set()
     steps = 0
@@ -726,7 +857,27 @@ def _analyze(self, fn, args, chain=(), subst=None, facts=None):
     hdr_extra = {}   # loop header -> {local: seq info learned from the loop body (elements, taint)}
     hdr_rounds = defaultdict(int)
     chain2 = chain + (fn.id,)
-    while work:
+    while work or deferred:
+        if not work:
+            # every path through the loop bodies has been explored: release the paths that leave a loop because its iterator is
+            # exhausted, crediting them with the facts every completed iteration established about the iterated element
+            for (hdr, tb0, dst, dtc, dnp) in deferred:
+                dst = dict(dst)
+                tags = self._iter_elem_tags(fn, dst, exh_next[hdr])
+                if tags and backfacts[hdr]:
+                    facts0 = dict(dst.get("#facts") or {})
+                    for tg in tags:
+                        rs = [bf.get(tg) for bf in backfacts[hdr]]
+                        if all(r is not None for r in rs):
+                            lo_, hi_ = min(r[0] for r in rs), max(r[1] for r in rs)
+                            if tg in facts0:
+                                lo_, hi_ = max(lo_, facts0[tg][0]), min(hi_, facts0[tg][1])
+                            if lo_ <= hi_:
+                                facts0[tg] = (lo_, hi_, False)
+                    dst["#facts"] = facts0
+                work.append((tb0, dst, dtc, dnp))
+            deferred = []
+            continue
         b, st, tctrl, onpath = work.pop()
         steps += 1
         if steps > self.path_limit:
@@ -738,7 +889,22 @@ def _analyze(self, fn, args, chain=(), subst=None, facts=None):
             # first arrival at a loop header on this path: havoc what the loop modifies
             hdr_entry.setdefault(b, []).append((st, tctrl, onpath))
             st = dict(st)
-            for l in assigned.get(b, ()):
+            asg = assigned.get(b, ())
+            for l in asg:
+                if isinstance(l, tuple) and l[0] == "mut":
+                    if l[1] in asg:
+                        continue
+                    old = st.get(l[1])
+                    if old and old["k"] == "seq" and ITER_TY.match(fn.local_ty(l[1])):
+                        # an iterator only mutated through &mut (next/…): it yields a suffix of what it yielded before the loop
+                        nv = dict(old)
+                        if old.get("olen") is None and old["len"].get("s") is not None:
+                            nv["olen"] = old["len"]["s"]  # the number of items it yields in total
+                        nv["len"] = mk(0, old["len"]["hi"], old["len"]["t"])
+                        nv.pop("id", None)
+                        st[l[1]] = nv
+                        continue
+                    l = l[1]
                 if isinstance(l, tuple):
                     v = st.get(l[1])
                     if v and v["k"] == "ref":
@@ -766,6 +932,10 @@ def _analyze(self, fn, args, chain=(), subst=None, facts=None):
                             if ex.get("t"):
                                 nv["t"] = True
                                 nv["len"] = dict(nv["len"], t=True)
+                    if nv["k"] == "int" and nv["lo"] != nv["hi"] and nv.get("s") is None:
+                        nv = dict(nv)
+                        nv["s"] = ("hv", fn.id, b, l, self._inst)
+                        self._made_tag = True
                     st[l] = nv
         fp = (b, tctrl, tuple(sorted(((k, freeze(v)) for k, v in st.items() if isinstance(k, int)), key=lambda x: x[0])),
               tuple(sorted((repr(k), v) for k, v in (st.get("#facts") or {}).items())))
@@ -786,11 +956,32 @@ def _analyze(self, fn, args, chain=(), subst=None, facts=None):
         np = onpath | {b}
 
         def push(tb, nst, ntc):
+            if (b, tb) in exh and exh[(b, tb)] in np:
+                deferred.append((exh[(b, tb)], tb, nst, ntc, np))
+                return
+            for h in np:
+                if h in exh_next and tb not in bodies[h] and b in bodies[h]:
+                    # leaving the loop early: what was learned about the current element says nothing about the others
+                    tags = self._iter_elem_tags(fn, nst, exh_next[h])
+                    fc0 = nst.get("#facts") or {}
+                    if tags and any(tg in fc0 for tg in tags):
+                        ent = hdr_entry.get(h) or []
+                        keep = {}
+                        for tg in tags:
+                            if tg in fc0 and ent and all(tg in (e[0].get("#facts") or {}) for e in ent):
+                                los = [e[0]["#facts"][tg] for e in ent]
+                                keep[tg] = (min(x[0] for x in los), max(x[1] for x in los), False)
+                        nst = dict(nst)
+                        nst["#facts"] = {k_: v_ for k_, v_ in fc0.items() if k_ not in tags}
+                        nst["#facts"].update(keep)
             if tb in np and (b, tb) in back:
+                backfacts[tb].append(dict(nst.get("#facts") or {}))
                 # loop already summarised by the havoc at its header; learn what the body stored into sequences
                 changed = False
                 ex = hdr_extra.setdefault(tb, {})
                 for l in assigned.get(tb, ()):
+                    if isinstance(l, tuple) and l[0] == "mut":
+                        l = l[1]
                     if isinstance(l, tuple):
                         continue
                     v = nst.get(l)
@@ -857,6 +1048,11 @@ def _analyze(self, fn, args, chain=(), subst=None, facts=None):
         elif k == "call":
             self._outs = None
             res = self._call(fn, st, b, t, summ, chain2, tctrl, subst)
+            if res is not None and not self._outs and "p" not in t["dest"]:
+                rv_ = st.get(t["dest"]["l"])
+                if rv_ and rv_.get("k") == "seq" and rv_["len"].get("s") is None and rv_["len"]["lo"] != rv_["len"]["hi"]:
+                    # a sequence produced by the call: name its length so that later comparisons can be related to it
+                    st[t["dest"]["l"]] = dict(rv_, len=dict(rv_["len"], s=self.fresh("len", fn, b)))
             if res is not None and t.get("target") is not None:
                 if self._outs:
                     for (rv1, facts1) in self._outs:
@@ -932,6 +1128,7 @@ def _branch(self, fn, st, t, dl, dv, value, excluded):
                     a_[1] -= 1
             if a_[0] > a_[1] or b_[0] > b_[1]:
                 return None
+            _rel_fact(facts, op, sa, sb)
             for tag, rng in ((sa, a_), (sb, b_)):
                 if tag[0] != "c":
                     old = facts.get(tag)
@@ -999,6 +1196,20 @@ Analyzer._cond_taint = _cond_taint
 
 def _apply_fact(self, fn, st, fact, truth):
     kind, place = fact[0], fact[1]
+    if kind == "lentag":
+        facts = dict(st.get("#facts") or {})
+        tag, lo, hi = fact[2], fact[3], fact[4]
+        old = facts.get(tag)
+        if old:
+            lo, hi = max(lo, old[0]), min(hi, old[1])
+        if truth:
+            lo, hi = 0, 0
+        else:
+            lo = max(lo, 1)
+        if lo <= hi:
+            facts[tag] = (lo, hi, False)
+            st["#facts"] = facts
+        return
     v = self.read_place(fn, st, place)
     if kind == "range":
         if truth and v["k"] == "int":
@@ -1082,23 +1293,91 @@ def _unknown_len(v):
 def _has_src(s):
     if not isinstance(s, tuple) or not s:
         return False
-    if s[0] == "src":
+    if s[0] in ("src", "arg"):
         return True
+    if s[0] == "seq":
+        return True  # identity of a sequence handed in as an argument
     return any(_has_src(x) for x in s[1:] if isinstance(x, tuple))
+
+
+def _has_hv(s):
+    if not isinstance(s, tuple) or not s:
+        return False
+    if s[0] == "hv":
+        return True
+    return any(_has_hv(x) for x in s[1:] if isinstance(x, tuple))
+
+
+def _loop_index_unrelated(self, operands):
+    a, b = operands
+    if a.get("k") == "seq":
+        lenv, idx = a["len"], b
+    elif b.get("k") == "seq":
+        lenv, idx = b["len"], a
+    else:
+        lenv, idx = a, b  # MIR bounds check: (len, index)
+    if idx.get("k") != "int" or not _has_hv(idx.get("s")):
+        return False
+    ls = lenv.get("s") if lenv.get("k") == "int" else None
+    if ls is None:
+        return True
+    return ("cmp", idx["s"], ls) not in (self._facts or {})
+
+
+Analyzer._loop_index_unrelated = _loop_index_unrelated
+
+
+def _compared(self, v):
+    """has the path established any fact about this (unknown) value?"""
+    if v is None:
+        return False
+    if v["k"] == "seq":
+        v = v["len"]
+    if v["k"] != "int" or v.get("s") is None:
+        return False
+    return bool(self._facts) and v["s"] in self._facts
+
+
+Analyzer._compared = _compared
+
+
+RANK = {"untainted": 0, "safe": 1, "undecided": 2, "alarm": 3}
+
+
+def _log_site(self, fn, b, i, kind, desc, status):
+    k = f"{fn.nname}/{kind}:{desc}"
+    cur = self.site_log.get(k)
+    if cur is None or RANK[status] > RANK[cur[0]]:
+        self.site_log[k] = (status, fn.loc(b, i))
+
+
+Analyzer._log_site = _log_site
 
 
 def _record(self, summ, fn, b, i, kind, desc, safe, tainted, chain, detail=None, operands=()):
     summ.sites += 1
     self.stats["sites"] += 1
-    if not safe and tainted and operands and any(_unknown_len(o) for o in operands):
-        # not decided: the deciding operand is a loop-built length the analysis has no bound for
+    self.analysed_fns.add(fn.nname)
+    if not safe and tainted and kind == "BoundsCheck" and len(operands) == 2 and self._loop_index_unrelated(operands):
+        # not decided: a loop counter indexes a sequence whose length the path never related it to; whether this is in bounds rests on
+        # an inductive invariant between the loop and the sequence that an interval analysis does not establish
         self.stats["undecided_loop_length"] += 1
+        self.undecided.setdefault(f"{fn.nname}/{kind}:{desc} @{fn.loc(b, i)}", fn.loc(b, i))
+        self._log_site(fn, b, i, kind, desc, "undecided")
+        return
+    if not safe and tainted and operands and any(_unknown_len(o) and (kind == "panic" or not self._compared(o)) for o in operands):
+        # not decided: the deciding operand is a loop-built length / untracked element the code never compared on this path
+        self.stats["undecided_loop_length"] += 1
+        self.undecided.setdefault(f"{fn.nname}/{kind}:{desc} @{fn.loc(b, i)}", fn.loc(b, i))
+        self._log_site(fn, b, i, kind, desc, "undecided")
         return
     if safe or not tainted:
+        self._log_site(fn, b, i, kind, desc, "safe" if safe else "untainted")
         summ.discharged += 1
         self.stats["discharged" if safe else "untainted"] += 1
         return
     key = f"{fn.nname}/{kind}:{desc}"
+    self._log_site(fn, b, i, kind, desc, "alarm")
     if any(a.key == key for a in summ.alarms):
         return
     summ.alarms.append(Alarm(key, kind, fn, fn.loc(b, i), chain, detail))
@@ -1129,7 +1408,7 @@ def _assert(self, fn, st, b, t, summ, chain, tctrl):
         desc = (names[0] + {"Overflow(Add)": "+", "Overflow(Sub)": "-", "Overflow(Mul)": "*", "Overflow(Shl)": "<<", "Overflow(Shr)": ">>"}.get(msg, "?") + names[1])
     elif msg == "BoundsCheck":
         if all(o["k"] == "int" for o in ops):
-            safe = safe or ops[1]["hi"] < ops[0]["lo"]
+            safe = safe or ops[1]["hi"] < ops[0]["lo"] or rel_lt(self._facts, ops[1], ops[0])
             detail = f"index in [{ops[1]['lo']}, {ops[1]['hi']}], length in [{ops[0]['lo']}, {ops[0]['hi']}]"
         desc = f"{names[1]} < len({names[0]})"
     elif msg in ("DivisionByZero", "RemainderByZero"):
@@ -1138,7 +1417,7 @@ def _assert(self, fn, st, b, t, summ, chain, tctrl):
         desc = f"{names[0] if names else '?'} != 0"
     else:
         desc = "+".join(names) or msg
-    self._record(summ, fn, b, "T", msg, desc, safe, tainted, chain, detail, ops if msg == "BoundsCheck" else ())
+    self._record(summ, fn, b, "T", msg, desc, safe, tainted, chain, detail, ops if (msg == "BoundsCheck" or msg.startswith("Overflow")) else ())
 
 
 Analyzer._assert = _assert
@@ -1630,6 +1909,8 @@ def _std(self, fn, st, b, t, cn, last, args, dargs, targ, summ, chain, tctrl):
                 tgt = _ref_target(st, src)
                 if tgt is not None and "p" not in t["dest"]:
                     st[("fact", t["dest"]["l"])] = ("empty", {"l": tgt})
+                elif a["len"].get("s") is not None and "p" not in t["dest"]:
+                    st[("fact", t["dest"]["l"])] = ("lentag", None, a["len"]["s"], a["len"]["lo"], a["len"]["hi"])
                 ln = a["len"]
                 if ln["hi"] == 0:
                     return const(1)
@@ -1705,10 +1986,18 @@ def _std(self, fn, st, b, t, cn, last, args, dargs, targ, summ, chain, tctrl):
         a = dargs[0]
         idx = dargs[1] if len(dargs) > 1 else top()
         if idx["k"] == "int":
-            safe = a["k"] == "seq" and idx["hi"] < a["len"]["lo"]
+            safe = a["k"] == "seq" and (idx["hi"] < a["len"]["lo"] or rel_lt(self._facts, idx, a["len"]))
             self._record(summ, fn, b, "T", "BoundsCheck", f"{self.local_desc(fn, t['args'][1])} < len({self.local_desc(fn, t['args'][0])})", safe,
-                         taint_of(a) or taint_of(idx), chain)
-            return top(taint_of(a))
+                         taint_of(a) or taint_of(idx), chain, None, (a, idx))
+            el = a.get("e") if a["k"] == "seq" else None
+            ety = dty.lstrip("&").replace("mut ", "")
+            if el is None:
+                el = top_ty(ety, taint_of(a))
+            if el["k"] == "seq" and a["k"] == "seq" and a.get("id") is not None and idx.get("s") is not None:
+                el = dict(el)
+                el["id"] = ("elem", a["id"], idx["s"])
+                el["len"] = dict(el["len"], s=("len", el["id"]))
+            return el
         if idx["k"] == "agg":
             # range index: start..end
             ends = [v for v in idx["f"].values() if v["k"] == "int"]
@@ -1737,9 +2026,27 @@ def _std(self, fn, st, b, t, cn, last, args, dargs, targ, summ, chain, tctrl):
         src = dargs[0] if dargs else top()
         item = src.get("e") if src["k"] == "seq" and src.get("e") is not None else top(targ)
         if "Enumerate" in fn.local_ty(op_local(t["args"][0])) if op_local(t["args"][0]) is not None else False:
-            item = {"k": "agg", "f": {0: mk(0, 2**64 - 1, False), 1: item}, "t": False}
+            cnt = mk(0, max(src["len"]["hi"] - 1, 0) if src["k"] == "seq" and src.get("olen") is None else 2**64 - 1, False)
+            cnt["s"] = self.fresh("enum", fn, b)
+            if src["k"] == "seq" and src.get("olen") is not None:
+                # the counter of a whole-sequence enumerate is below the number of items
+                fc = dict(st.get("#facts") or {})
+                _rel_fact(fc, "Lt", cnt["s"], src["olen"])
+                st["#facts"] = fc
+                self._facts = fc
+            item = {"k": "agg", "f": {0: cnt, 1: item}, "t": False}
         return enum_val({0: {"k": "agg", "f": {}, "t": False}, 1: payload(item)}, targ)
-    if cn.endswith(("Iterator::enumerate", "Iterator::rev", "Iterator::zip", "Iterator::skip", "Iterator::take")) and dargs and dargs[0]["k"] == "seq":
+    if cn.endswith("Iterator::zip") and len(dargs) == 2 and dargs[0]["k"] == "seq":
+        a, c = dargs
+        ea = a.get("e") if a.get("e") is not None else top(taint_of(a))
+        ec = (c.get("e") if c.get("e") is not None else top(taint_of(c))) if c["k"] == "seq" else top(taint_of(c))
+        ln = a["len"]
+        if c["k"] == "seq":
+            ln = mk(min(a["len"]["lo"], c["len"]["lo"]), min(a["len"]["hi"], c["len"]["hi"]), a["len"]["t"] or c["len"]["t"])
+        z = seq(ln, taint_of(a) or taint_of(c))
+        z["e"] = {"k": "agg", "f": {0: ea, 1: ec}, "t": False}
+        return z
+    if cn.endswith(("Iterator::enumerate", "Iterator::rev", "Iterator::skip", "Iterator::take", "Iterator::cloned", "Iterator::copied")) and dargs and dargs[0]["k"] == "seq":
         return dargs[0]
     if cn.startswith("core::mem::"):
         if last in ("take", "replace"):
@@ -1853,3 +2160,23 @@ def resolve_with_subst(prog, t, subst):
             s2[g] = a
         return callee, s2
     return None, None
+
+
+def report_sites(ck, an, rule="E4", alarmed=()):
+    """one obligation per site proved safe; sites that are not attacker-controlled or not decided are listed as notes"""
+    n = {"safe": 0, "untainted": 0, "undecided": 0, "alarm": 0}
+    for k, (status, loc) in sorted(an.site_log.items()):
+        n[status] += 1
+        if status == "safe":
+            ck.ob(rule, "safe:" + k, True, "proved not to fail for any value of the attacker-controlled operands", loc=loc)
+        elif status == "undecided":
+            ck.note(f"not decided: {k} at {loc} (a loop-built length / loop counter the path never related to the operand; "
+                    f"its safety rests on an inductive invariant outside an interval analysis)")
+    for f in an.analysed_fns:
+        ck.saw(f)
+    ck.stats["distinct_sites"] = len(an.site_log)
+    ck.stats["distinct_sites_safe"] = n["safe"]
+    ck.stats["distinct_sites_not_attacker_controlled"] = n["untainted"]
+    ck.stats["distinct_sites_undecided"] = n["undecided"]
+    ck.stats["distinct_sites_alarmed"] = n["alarm"]
+    return n
